@@ -75,10 +75,32 @@ pub struct PredOpts<'a> {
     /// < <= > >= on string columns (fails on the engine whenever the constant is absent from a
     /// partition's dictionary: F7)
     pub allow_str_order: bool,
+    /// compare integer columns with FLOAT literals (integral like 3.0 and fractional like 3.5); only
+    /// used for columns whose values are below 2^53 in magnitude, where the engine's int -> f64 cast
+    /// is exact
+    pub allow_float_const_for_int: bool,
     /// constants of magnitude >= 2^62 (overflow in the constant's translation into the column's
     /// offset encoding)
     pub allow_huge_const: bool,
     pub allow_is_null: bool,
+}
+
+fn floatify(r: &mut Rng, t: &Table, c: usize, v: V, o: &PredOpts) -> V {
+    if !o.allow_float_const_for_int || t.cols[c].kind != Kind::Int || !r.chance(1, 3) {
+        return v;
+    }
+    let small = t.cols[c].cells.iter().all(|x| match x {
+        V::Int(i) => i.unsigned_abs() < (1u64 << 52),
+        _ => true,
+    });
+    match v {
+        V::Int(k) if small && k.unsigned_abs() < (1u64 << 40) => {
+            // the literal is written with a decimal point, so the parser types it Float
+            let f = k as f64 + *r.pick(&[0.0, 0.0, 0.5, -0.5, 0.25]);
+            V::f(f)
+        }
+        other => other,
+    }
 }
 
 fn tame(v: V, o: &PredOpts) -> V {
@@ -137,9 +159,15 @@ pub fn gen_leaf(r: &mut Rng, t: &Table, o: &PredOpts) -> Expr {
         }
         5 => {
             // constant on the left
-            Expr::cmp(pick_cmp(r, kind, o), Expr::Const(tame(gen_const(r, t, c), o)), Expr::Col(c))
+            let k = tame(gen_const(r, t, c), o);
+            let k = floatify(r, t, c, k, o);
+            Expr::cmp(pick_cmp(r, kind, o), Expr::Const(k), Expr::Col(c))
         }
-        _ => Expr::cmp(pick_cmp(r, kind, o), Expr::Col(c), Expr::Const(tame(gen_const(r, t, c), o))),
+        _ => {
+            let k = tame(gen_const(r, t, c), o);
+            let k = floatify(r, t, c, k, o);
+            Expr::cmp(pick_cmp(r, kind, o), Expr::Col(c), Expr::Const(k))
+        }
     }
 }
 
